@@ -46,7 +46,8 @@ let cli_case id npre streamh =
   let stream = text_of_hex streamh in
   match cli (nat_of_int (int_of_string npre)) stream with
   | Ok r ->
-      let evs = List.map (function EDiag t -> "D:" ^ hex_of_text t | EWarn v -> "W:" ^ hex_of_text v | EFatal s -> "F:" ^ string_of_int (int_of_nat s)) r.c_stderr in
+      let evs = List.map (function EDiag t -> "D:" ^ hex_of_text t | EWarn v -> "W:" ^ hex_of_text v) r.c_stderr
+                @ (match r.c_fatal with Some s -> ["F:" ^ string_of_int (int_of_nat s)] | None -> []) in
       Printf.printf "%s cli %s %s %s %s\n" id (zstr r.c_status) (hex_of_text r.c_stdout)
         (if evs = [] then "_" else String.concat "," evs)
         (if r.c_terms = [] then "_" else String.concat "," (List.map zstr r.c_terms))
